@@ -34,15 +34,16 @@ Qed.
 Record table_ok (t : table) (rows : list (list (list Z))) : Prop := {
   ok_fields : table_fields t = rows;
   ok_starts : forall row s, In row (t_starts t) -> In s row -> 0 <= s;
-  ok_ends : forall row e, In row (t_ends t) -> In e row -> e <= len (t_data t)
+  ok_ends : forall row e, In row (t_ends t) -> In e row -> e < len (t_data t);
+  ok_pos : 1 <= len (t_data t)
 }.
-Lemma bounds_ok t rows j se : table_ok t rows -> In se (bounds t j) -> 0 <= fst se /\ snd se <= len (t_data t).
+Lemma bounds_ok t rows j se : table_ok t rows -> In se (bounds t j) -> 0 <= fst se /\ snd se < len (t_data t).
 Proof.
-  intros [_ Hs He] H. unfold bounds, col in H. rewrite combine_map_both in H.
+  intros [_ Hs He Hpos] H. unfold bounds, col in H. rewrite combine_map_both in H.
   apply in_map_iff in H. destruct H as [p [E Hp]]. subst se. cbn [fst snd]. destruct p as [ps pe]. cbn [fst snd].
   apply in_combine_l in Hp as Hl. apply in_combine_r in Hp as Hr. split.
   - destruct (nthZ_In_or_0 ps j) as [Hin|H0]; [apply (Hs _ _ Hl Hin)|lia].
-  - destruct (nthZ_In_or_0 pe j) as [Hin|H0]; [apply (He _ _ Hr Hin)|rewrite H0; apply len_nonneg].
+  - destruct (nthZ_In_or_0 pe j) as [Hin|H0]; [apply (He _ _ Hr Hin)|lia].
 Qed.
 
 (* string and identifier columns *)
@@ -75,7 +76,7 @@ Proof.
       by (unfold texts; rewrite mapM_map; reflexivity).
     rewrite Ht, mapM_map. unfold spec_cell. rewrite (mapM_option_map (fun r => int_of_text (field r j)) CInt).
     unfold opt_col. destruct (mapM (fun x => int_of_text (field x j)) rows); reflexivity.
-  - intros se Hse. destruct (bounds_ok t rows j se Hok Hse) as [A B]. split; [exact A|]. split; [exact B|].
+  - intros se Hse. destruct (bounds_ok t rows j se Hok Hse) as [A B]. split; [exact A|]. split; [lia|].
     assert (Hin : In (text_at (t_data t) se) (texts t j)) by (unfold texts; apply in_map; exact Hse).
     rewrite Ht in Hin. apply in_map_iff in Hin. destruct Hin as [r [E Hr]]. rewrite <- E. apply Hnum. exact Hr.
 Qed.
@@ -93,12 +94,19 @@ Qed.
 (* ---------- whole files ---------- *)
 Definition body_of (crlf : bool) (rows : list (list (list Z))) : list Z := lay (eol_of crlf) (map (intercalate [9]) rows).
 
+Lemma lay_len_pos crlf ls : ls <> [] -> 1 <= len (lay (eol_of crlf) ls).
+Proof.
+  destruct ls as [|l ls]; [congruence|]. intros _. unfold lay. simpl. rewrite !len_app.
+  pose proof (len_nonneg l). pose proof (len_nonneg (concat (map (fun l0 => l0 ++ eol_of crlf) ls))).
+  assert (1 <= len (eol_of crlf)) by (destruct crlf; unfold len; simpl; lia). lia.
+Qed.
 Lemma table_of_rows crlf n rows : 1 <= n -> rows <> [] ->
   (forall r, In r rows -> len r = n /\ forall f, In f r -> clean f) ->
   exists t, delim_table 9 (body_of crlf rows) = Some t /\ table_ok t rows /\ len (t_starts t) = len rows.
 Proof.
   intros Hn Hne H. destruct (field_table_correct crlf n rows Hn Hne H) as [t [Ht [Hd [Hf [Hl [Hs He]]]]]].
-  exists t. split; [exact Ht|]. split; [|exact Hl]. constructor; [exact Hf|exact Hs|]. rewrite Hd. exact He.
+  exists t. split; [exact Ht|]. split; [|exact Hl]. constructor; [exact Hf|exact Hs|rewrite Hd; exact He|].
+  rewrite Hd. apply lay_len_pos. destruct rows; [congruence|discriminate].
 Qed.
 
 (* BED3: chromosome, start, stop.  Any leading '#' block, any number of records, any widths, LF or CRLF. *)
